@@ -685,8 +685,117 @@ func (g *gen) genCompositions(n int) {
 	}
 }
 
+// sizes around which an implementation may switch strategy (a pooled buffer, a window instead of a copy, a chunked
+// read): powers of two from 1 KiB, bufio's 4096, the 16-bit limit
+func (g *gen) thresholdSize() int {
+	base := []int{1024, 2048, 4096, 8192, 16384, 32768, 65535}[g.r.Intn(7)]
+	n := base + g.r.Intn(5) - 2
+	if n > 65535 {
+		n = 65535
+	}
+	return n
+}
+
+// a valid body of `kind` whose only large field is one length-prefixed string or binary value of n bytes; nil for
+// kinds that have none
+func (g *gen) bigStringBody(kind string, n int) []byte {
+	v := g.bytesN(n)
+	for i := range v {
+		if v[i] == 0 || v[i] == '#' || v[i] == '+' {
+			v[i] = 'x'
+		}
+	}
+	str := append([]byte{byte(n >> 8), byte(n)}, v...)
+	prop := func(id byte) []byte {
+		sect := append([]byte{id}, str...)
+		return append(vbEncode(uint64(len(sect))), sect...)
+	}
+	pid := []byte{0, byte(1 + g.r.Intn(255))}
+	switch kind {
+	case "Auth":
+		return append([]byte{0x18}, prop(0x16)...)
+	case "Disconnect":
+		return append([]byte{0}, prop([]byte{0x1f, 0x1c}[g.r.Intn(2)])...)
+	case "ConnAck":
+		return append([]byte{0, 0}, prop([]byte{0x1f, 0x12, 0x1a, 0x16}[g.r.Intn(4)])...)
+	case "PubAck", "PubRec", "PubRel", "PubComp":
+		return append(append(pid, 0), prop(0x1f)...)
+	case "SubAck", "UnsubAck":
+		return append(append(pid, prop(0x1f)...), 0)
+	case "Unsubscribe":
+		return append(append(pid, 0), str...)
+	case "Subscribe":
+		return append(append(append(pid, 0), str...), 1)
+	case "Publish": // QoS 0
+		if g.chance(0.5) {
+			return append(append(str, 0), 'p')
+		}
+		return append(append([]byte{0, 1, 't'}, prop([]byte{0x08, 0x09, 0x03}[g.r.Intn(3)])...), 'p')
+	case "Connect":
+		hd := []byte{0, 4, 'M', 'Q', 'T', 'T', 5}
+		switch g.r.Intn(3) {
+		case 0: // client id
+			return append(append(hd, 0, 0, 0, 0), str...)
+		case 1: // password
+			return append(append(append(hd, 0x40, 0, 0, 0), 0, 0), str...)
+		default: // user name
+			return append(append(append(hd, 0x80, 0, 0, 0), 0, 0), str...)
+		}
+	}
+	return nil
+}
+
+var firstOfKind = map[string]byte{"Connect": 0x10, "ConnAck": 0x20, "Publish": 0x30, "PubAck": 0x40, "PubRec": 0x50, "PubRel": 0x62,
+	"PubComp": 0x70, "Subscribe": 0x82, "SubAck": 0x90, "Unsubscribe": 0xa2, "UnsubAck": 0xb0, "PingReq": 0xc0,
+	"PingResp": 0xd0, "Disconnect": 0xe0, "Auth": 0xf0}
+
+// a valid frame larger than the usual read and pool sizes: a long list, a long string, or a long payload
+func (g *gen) bigFrame() []byte {
+	switch g.r.Intn(4) {
+	case 0: // SUBACK / UNSUBACK with thousands of reason codes
+		n := 30000 + g.r.Intn(40000)
+		body := append([]byte{0, 1, 0}, bytesRepeat(0, n)...)
+		return reframe([]byte{0x90, 0xb0}[g.r.Intn(2)], body)
+	case 1: // UNSUBSCRIBE with many filters
+		var body = []byte{0, 1, 0}
+		for n := 8000 + g.r.Intn(8000); n > 0; n-- {
+			body = append(body, 0, 2, 'a', 'b')
+		}
+		return reframe(0xa2, body)
+	case 2:
+		kinds := []string{"Auth", "Disconnect", "ConnAck", "PubAck", "Unsubscribe", "Subscribe", "Publish", "Connect"}
+		k := kinds[g.r.Intn(len(kinds))]
+		return reframe(firstOfKind[k], g.bigStringBody(k, []int{32768, 40000, 65535}[g.r.Intn(3)]))
+	}
+	sz := []int{32764, 32769, 40000, 65531, 65537, 70000}[g.r.Intn(6)]
+	return reframe(0x30, append([]byte{0, 1, 't', 0}, g.bytesN(sz)...))
+}
+
 func (g *gen) genCuts(n int) {
 	for c := 0; c < n; c++ {
+		if g.chance(0.12) {
+			// a frame beyond the usual buffer sizes, cut at a few places inside the body and just before its end
+			fr := g.bigFrame()
+			g.emit("RESET")
+			g.emit("NOTE case=cuts len=%d big=1", len(fr))
+			ks := []int{len(fr) - 1, len(fr) - 2, len(fr) / 2, 5 + g.r.Intn(len(fr)-6), 32768 + g.r.Intn(8), 4096 + g.r.Intn(8)}
+			for _, k := range ks {
+				if k <= 0 || k >= len(fr) {
+					continue
+				}
+				fail := "eof"
+				if g.chance(0.3) {
+					fail = fmt.Sprintf("E%d", 1+g.r.Intn(9))
+				}
+				var sched []int
+				if g.chance(0.3) {
+					sched = []int{1, 1, 1, 1, 1, 4096}
+				}
+				g.emit("NOTE case=cut k=%d fail=%s", k, fail)
+				g.emit("RD x %s sched=%s eofwd=%d fail=%s calls=1", hxd(fr[:k]), schedStr(sched), g.r.Intn(2), fail)
+			}
+			continue
+		}
 		f := g.specFrame(g.anyKind())
 		fr := f.frame()
 		if len(fr) > 600 {
@@ -858,7 +967,12 @@ func (g *gen) genSeq(n int) {
 		if tail == 0 {
 			calls = k + 1 // the call after the last frame must report io.EOF
 		}
-		g.emit("RD x %s sched=- eofwd=0 fail=eof calls=%d", hx(stream), calls)
+		sched, eofwd := "-", 0
+		if len(stream) < 4000 && g.chance(0.4) {
+			// the same stream handed over in pieces, with empty reads, the last bytes together with io.EOF
+			sched, eofwd = schedStr(g.schedule(len(stream))), g.r.Intn(2)
+		}
+		g.emit("RD x %s sched=%s eofwd=%d fail=eof calls=%d", hx(stream), sched, eofwd, calls)
 	}
 }
 
@@ -1003,6 +1117,83 @@ func (g *gen) genMalformed(n int) {
 	}
 }
 
+// long repeated sections (C05: work and memory proportional to the frame): thousands of user properties,
+// subscription identifiers, filters or reason codes in one frame, whole and cut short, through UnmarshalBinary and
+// ReadPacket. The executor meters the bytes allocated during each decode (exec.go, allocLimit).
+func (g *gen) genBigList(n int) {
+	type shape struct {
+		kind   string
+		first  byte
+		head   []byte // variable header before the property section
+		tail   []byte // after it
+		filter []byte // one element of the payload list, nil if none
+	}
+	shapes := []shape{
+		{"Connect", 0x10, []byte{0, 4, 'M', 'Q', 'T', 'T', 5, 0, 0, 0}, []byte{0, 0}, nil},
+		{"ConnAck", 0x20, []byte{0, 0}, nil, nil},
+		{"Publish", 0x30, []byte{0, 1, 'a'}, []byte("payload"), nil},
+		{"PubAck", 0x40, []byte{0, 1, 0}, nil, nil},
+		{"PubRec", 0x50, []byte{0, 1, 0}, nil, nil},
+		{"PubRel", 0x62, []byte{0, 1, 0}, nil, nil},
+		{"PubComp", 0x70, []byte{0, 1, 0}, nil, nil},
+		{"Subscribe", 0x82, []byte{0, 1}, nil, []byte{0, 1, 'a', 1}},
+		{"SubAck", 0x90, []byte{0, 1}, nil, []byte{0}},
+		{"Unsubscribe", 0xa2, []byte{0, 1}, nil, []byte{0, 1, 'a'}},
+		{"UnsubAck", 0xb0, []byte{0, 1}, nil, []byte{0}},
+		{"Disconnect", 0xe0, []byte{0}, nil, nil},
+		{"Auth", 0xf0, []byte{0}, nil, nil},
+	}
+	for c := 0; c < n; c++ {
+		sh := shapes[g.r.Intn(len(shapes))]
+		count := 600 + g.r.Intn(1000)
+		if g.chance(0.08) {
+			count = 3000 + g.r.Intn(1500)
+		}
+		var elem []byte
+		what := "userprop"
+		switch k := g.r.Intn(4); {
+		case k == 0:
+			elem = []byte{0x26, 0, 0, 0, 0}
+			what = "userprop-empty"
+		case k == 1 && sh.kind == "Publish":
+			elem = []byte{0x0b, byte(1 + g.r.Intn(127))}
+			what = "subid"
+		case k == 2 && sh.filter != nil:
+			what = "payload-list"
+		default:
+			elem = []byte{0x26, 0, 1, 'k', 0, 1, 'v'}
+		}
+		var props, tail []byte
+		tail = append(tail, sh.tail...)
+		if what == "payload-list" {
+			for i := 0; i < count; i++ {
+				tail = append(tail, sh.filter...)
+			}
+		} else {
+			for i := 0; i < count; i++ {
+				props = append(props, elem...)
+			}
+			if sh.filter != nil {
+				tail = append(tail, sh.filter...)
+			}
+		}
+		body := append([]byte(nil), sh.head...)
+		body = append(body, vbEncode(uint64(len(props)))...)
+		body = append(body, props...)
+		body = append(body, tail...)
+		cut := 0
+		if g.chance(0.3) {
+			cut = 1 + g.r.Intn(6)
+			body = body[:len(body)-cut]
+		}
+		g.emit("RESET")
+		g.emit("NOTE case=biglist kind=%s list=%s count=%d cut=%d", sh.kind, what, count, cut)
+		g.emit("NEW p %s", sh.kind)
+		g.emit("DEC p %s", hxd(body))
+		g.emit("RD x %s sched=- eofwd=0 fail=eof calls=1", hxd(reframe(sh.first, body)))
+	}
+}
+
 // all byte strings of length <= L after every type nibble (C04 exhaustive part): seed = L
 func (g *gen) genShort(L int) {
 	var rec func(prefix []byte, left int, f func([]byte))
@@ -1069,6 +1260,31 @@ func (g *gen) genFirst(n int) {
 				g.emit("VIEW x")
 				g.emit("ENC x")
 				g.emit("STR x")
+				// every legal short form of the type under the same first byte (an implementation may treat the common
+				// short frames on a path of their own)
+				var shorts [][]byte
+				pid := []byte{byte(g.r.Intn(256)), byte(1 + g.r.Intn(255))}
+				switch kind {
+				case "PubAck", "PubRec", "PubRel", "PubComp":
+					shorts = [][]byte{pid, append(append([]byte(nil), pid...), byte(g.r.Intn(2)*0x10)), append(append([]byte(nil), pid...), 0, 0)}
+				case "Disconnect":
+					shorts = [][]byte{nil, {byte(g.r.Intn(2) * 4)}, {0, 0}}
+				case "Auth":
+					shorts = [][]byte{nil, {0x18, 0}}
+				case "PingReq", "PingResp":
+					shorts = [][]byte{nil}
+				case "ConnAck":
+					shorts = [][]byte{{0, 0, 0}, {1, 0, 0}}
+				case "SubAck", "UnsubAck":
+					shorts = [][]byte{append(append([]byte(nil), pid...), 0, 0)}
+				}
+				for _, sb := range shorts {
+					g.emit("NOTE case=first b0=%d kind=%s short=%d", b0, kind, len(sb))
+					g.emit("RD x %s sched=- eofwd=0 fail=eof calls=1", hx(reframe(b0, sb)))
+					g.emit("VIEW x")
+					g.emit("ENC x")
+					g.emit("STR x")
+				}
 			}
 		}
 		// all 256 first bytes decoded first and kept, written back only afterwards, in a shuffled order
@@ -1098,6 +1314,9 @@ func (g *gen) genPool(n int) {
 			}
 			if g.chance(0.1) {
 				kinds[i] = "Undefined"
+			}
+			if g.chance(0.08) {
+				kinds[i] = "Subscribe"
 			}
 			g.emit("NEW s%d %s", i, kinds[i])
 		}
@@ -1141,6 +1360,14 @@ func (g *gen) genPool(n int) {
 					body = append([]byte{0, 1, 't', 0}, g.bytesN(sz)...)
 					big = true
 				}
+				if kinds[i] != "Undefined" && g.chance(0.15) {
+					// one string or binary value of a kilobyte and more (a decoder might copy only the small ones)
+					if bb := g.bigStringBody(kinds[i], g.thresholdSize()); bb != nil {
+						g.emit("NEW %s %s", slot, kinds[i])
+						body = bb
+						big = true
+					}
+				}
 				if len(body) > 2000 && !big {
 					continue
 				}
@@ -1164,6 +1391,9 @@ func (g *gen) genPool(n int) {
 				if g.chance(0.7) {
 					g.emit("SCRIBBLE %s", slot)
 				}
+				if kinds[i] == "Subscribe" && g.chance(0.6) {
+					g.emit("FCOPY %s %d %s %d", slot, g.r.Intn(2), hxd(g.bytesN(g.r.Intn(6))), g.r.Intn(256))
+				}
 			case 2: // setters
 				if len(setters[kinds[i]]) > 0 {
 					ss := setters[kinds[i]]
@@ -1174,6 +1404,10 @@ func (g *gen) genPool(n int) {
 				g.emit("ENC %s", slot)
 			case 4:
 				g.emit("STR %s", slot)
+				if kinds[i] == "Subscribe" {
+					// a filter taken out of the packet by value and changed (shorter, equally long, longer)
+					g.emit("FCOPY %s %d %s %d", slot, g.r.Intn(3), hxd(g.bytesN(g.r.Intn(12))), g.r.Intn(256))
+				}
 			}
 			for j := 0; j < m; j++ {
 				g.emit("VIEW s%d", j)
@@ -1288,6 +1522,81 @@ func (g *gen) recordConnectOps() []string {
 	return ops
 }
 
+// a remaining length in more bytes than needed (`81 00`, `81 80 00`, `81 80 80 00`): not valid MQTT, but a frame all the
+// same — whatever ReadPacket makes of it must not depend on how the bytes arrive (C07); five bytes must be rejected
+func vbPadded(n uint64, width int) []byte {
+	out := make([]byte, width)
+	for i := 0; i < width; i++ {
+		out[i] = byte(n & 127)
+		n >>= 7
+		if i < width-1 {
+			out[i] |= 128
+		}
+	}
+	return out
+}
+
+func (g *gen) genNonMin(n int) {
+	for c := 0; c < n; c++ {
+		f := g.specFrame(g.anyKind())
+		if len(f.body) > 2000 {
+			c--
+			continue
+		}
+		min := len(vbEncode(uint64(len(f.body))))
+		w := min + g.r.Intn(6-min) // up to five bytes
+		fr := append([]byte{f.first}, vbPadded(uint64(len(f.body)), w)...)
+		fr = append(fr, f.body...)
+		g.emit("RESET")
+		g.emit("NOTE case=comp base nonmin=%d/%d", w, min)
+		g.emit("RD x %s sched=- eofwd=0 fail=eof calls=1", hx(fr))
+		scheds := [][]int{{1, len(fr)}, {2, len(fr)}, {1, 1, len(fr)}, {3, len(fr)}, {1, 0, 1, len(fr)}, g.schedule(len(fr)), g.schedule(len(fr))}
+		for _, sc := range scheds {
+			g.emit("NOTE case=sched")
+			g.emit("RD x %s sched=%s eofwd=%d fail=eof calls=1", hx(fr), schedStr(sc), g.r.Intn(2))
+		}
+	}
+}
+
+// remaining lengths at the boundaries of the variable byte integer, decoded from a real stream by ReadPacket under
+// delivery schedules that split the fixed header (C15: the streaming decoder returns exactly that value and advances by
+// exactly those bytes): PUBLISH frames of remaining length v, and a second frame behind to see where the first ended
+func (g *gen) genVBFrame(n int) {
+	vals := []int{4, 5, 126, 127, 128, 129, 255, 256, 16382, 16383, 16384, 16385}
+	for c := 0; c < n; c++ {
+		v := vals[c%len(vals)]
+		if c >= len(vals) {
+			v = 4 + g.r.Intn(20000)
+		}
+		if n >= 1000 && c%400 == 399 {
+			v = []int{2097151, 2097152, 2097153}[g.r.Intn(3)] // four-byte form (thorough tier)
+		}
+		body := append([]byte{0, 1, 't', 0}, g.bytesN(v-4)...)
+		fr := reframe(0x30, body)
+		stream := append(append([]byte(nil), fr...), 0xc0, 0x00)
+		w := len(vbEncode(uint64(v)))
+		var sc []int
+		switch g.r.Intn(5) {
+		case 0:
+			sc = []int{1, len(stream)}
+		case 1:
+			sc = []int{1, 1, len(stream)}
+		case 2:
+			sc = []int{2, len(stream)}
+		case 3:
+			sc = []int{1, 0, 1, 1, 1, len(stream)}
+		default:
+			sc = nil
+		}
+		if v < 3000 && g.chance(0.3) {
+			sc = g.schedule(len(stream))
+		}
+		g.emit("RESET")
+		g.emit("NOTE case=vbframe v=%d w=%d", v, w)
+		g.emit("RD x %s sched=%s eofwd=%d fail=eof calls=2", hx(stream), schedStr(sc), g.r.Intn(2))
+	}
+}
+
 func (g *gen) genVB(n int) {
 	g.emit("RESET")
 	for _, v := range vbEdges {
@@ -1352,6 +1661,7 @@ func (g *gen) genWF(n int) {
 		g.emit("RESET")
 		g.emit("NOTE case=wf")
 		if g.chance(0.5) {
+			g.lastKind = "Publish"
 			g.emit("NEW p Publish")
 			if g.chance(0.5) {
 				g.emit("SET p SetTopicName %s", hxd(g.nonEmpty()))
@@ -1365,10 +1675,16 @@ func (g *gen) genWF(n int) {
 			}
 			g.scalarSetters("p", "Publish", 0.2, false)
 		} else {
+			g.lastKind = "Subscribe"
 			g.emit("NEW p Subscribe")
 			nf := g.r.Intn(4)
 			for i := 0; i < nf; i++ {
 				flt := g.nonEmpty()
+				if g.chance(0.35) {
+					// filters that mean something to MQTT (shared subscriptions, system topics, wildcards): the documented
+					// rule looks at emptiness and the QoS bits only, whatever the string says
+					flt = []byte(topicDict[g.r.Intn(len(topicDict))])
+				}
 				if g.chance(0.2) {
 					flt = nil
 				}
@@ -1386,6 +1702,86 @@ func (g *gen) genWF(n int) {
 		g.emit("RDP p q")
 		g.emit("WF q")
 		g.emit("STR q")
+		// the verdict is a function of the current values: change them after the packet has been judged once, and again
+		for k := g.r.Intn(3); k > 0; k-- {
+			if kind := g.lastKind; kind == "Publish" {
+				switch g.r.Intn(4) {
+				case 0:
+					g.emit("SET p SetTopicName %s", hxd(g.smallBytes()))
+				case 1:
+					g.emit("SET p SetTopicAlias %d", g.r.Intn(2)*(1+g.r.Intn(65535)))
+				case 2:
+					g.emit("SET p SetQoS %d", g.r.Intn(4))
+				case 3:
+					g.emit("SET p SetPacketID %d", g.r.Intn(2)*(1+g.r.Intn(65535)))
+				}
+			} else {
+				if g.chance(0.6) {
+					g.emit("SET p SetSubscriptionID %d", []uint64{0, 1, 268435455, 268435456, 4294967295}[g.r.Intn(5)])
+				} else {
+					flt := []byte(topicDict[g.r.Intn(len(topicDict))])
+					if g.chance(0.3) {
+						flt = nil
+					}
+					g.emit("SET p AddFilters %s %d", hxd(flt), g.r.Intn(256))
+				}
+			}
+			g.emit("WF p")
+			g.emit("STR p")
+			if g.chance(0.5) {
+				g.emit("RDP p q")
+				g.emit("WF q")
+				g.emit("STR q")
+			}
+		}
+	}
+}
+
+var topicDict = []string{"$share/g/t", "$share/workers/jobs/#", "$share/", "$share", "$SYS/#", "$SYS/broker/load", "#", "+", "a/+/b",
+	"/", "a/b", "sport/tennis/player1/#", "+/+", "$shared/x"}
+
+// frames that decode but are not well formed by MQTT's rules (SUBSCRIBE with an empty filter or QoS 3 in the options,
+// PUBLISH with no topic and no alias, with QoS 3, with packet identifier 0), and their well-formed neighbours, through
+// ReadPacket: decodable is decodable — one of packet and error, whatever WellFormed says (C04)
+func (g *gen) genWFRD(n int) {
+	for c := 0; c < n; c++ {
+		var fr []byte
+		if g.chance(0.5) {
+			body := []byte{byte(g.r.Intn(256)), byte(g.r.Intn(256)), 0}
+			for k := 1 + g.r.Intn(3); k > 0; k-- {
+				flt := g.bytesN(g.r.Intn(5))
+				if g.chance(0.4) {
+					flt = nil
+				}
+				body = append(body, encStr(flt)...)
+				body = append(body, byte(g.r.Intn(8))|byte(g.r.Intn(2))<<5)
+			}
+			fr = reframe(0x82, body)
+		} else {
+			qos := g.r.Intn(4)
+			var body []byte
+			if g.chance(0.5) {
+				body = encStr(nil)
+			} else {
+				body = encStr(g.nonEmpty())
+			}
+			if qos > 0 {
+				pid := g.r.Intn(3)
+				body = append(body, 0, byte(pid))
+			}
+			if g.chance(0.5) {
+				body = append(body, 3, 0x23, 0, byte(g.r.Intn(3)))
+			} else {
+				body = append(body, 0)
+			}
+			body = append(body, g.smallBytes()...)
+			fr = reframe(0x30|byte(qos<<1)|byte(g.r.Intn(2))|byte(g.r.Intn(2)<<3), body)
+		}
+		g.emit("RESET")
+		g.emit("NOTE case=wfrd")
+		g.emit("RD x %s sched=- eofwd=0 fail=eof calls=1", hx(fr))
+		g.emit("WF x")
+		g.emit("STR x")
 	}
 }
 
